@@ -50,4 +50,12 @@ def assembleWith (feat : Option Bool) (tbl : SymTab) (src : List Char) : Outcome
 def assemble (stackFeature : Bool) (tbl : SymTab) (src : List Char) : Outcome × SymTab :=
   assembleWith (some stackFeature) tbl src
 
+/-- A process that assembles the sources in order on one thread; `doReset` = it calls
+`reset_state()` before each (what `lace watch` does between re-checks). -/
+def runSeq (flag : Bool) (doReset : Bool) : SymTab → List (List Char) → List Outcome
+  | _, [] => []
+  | tbl, src :: rest =>
+    let r := assemble flag (if doReset then SymTab.reset tbl else tbl) src
+    r.1 :: runSeq flag doReset r.2 rest
+
 end Lace.Asm
